@@ -129,6 +129,39 @@ def relabel_vector(ctx, rule, good, bad):
         ctx.check(ok, rule, f.construct('labels'), good, bad, f.where())
 
 
+def exact_threshold_on_sum(ctx, fq, rule, what):
+    """A user threshold compared exactly (`>=`) with a floating point sum of relative frequencies: the sum of probabilities that add up
+    to the threshold in exact arithmetic (0.7 + 0.2 + 0.1, 0.1 + 0.7) can fall one unit in the last place short of it, and the item the
+    statement includes is excluded (finding N).  Reported where the compared value carries no tolerance and is not computed from counts."""
+    f = ctx.func(fq)
+    r = ctx.recon(fq)
+    places = [d for ev in r.events for d in ev.data if isinstance(d, tuple)] + [c for ev in r.events for c, _ in ev.conds if isinstance(c, tuple)] \
+        + [c for c, _, _ in r.calls]
+    cmps = []
+    seen = set()
+    for d in places:
+        for x in walk(d):
+            if x[0] == 'cmp' and x[1] in ('GtE', 'LtE', 'Gt', 'Lt') and ('param', 'threshold') in (x[2], x[3]) and id(x) not in seen:
+                seen.add(id(x))
+                cmps.append(x)
+    ctx.need(cmps, f"{fq}: comparison with the threshold not found")
+    bare = []
+    for x in cmps:
+        other = x[3] if x[2] == ('param', 'threshold') else x[2]
+        tolerant = any(y[0] == 'call' and y[1] in ('numpy.isclose', 'math.isclose', 'numpy.round', 'round', 'numpy.around') for y in walk(x)) \
+            or (other[0] == 'bin' and other[1] in ('Add', 'Sub') and any(z[0] == 'const' for z in (other[2], other[3])))
+        if not tolerant:
+            bare.append(x)
+    ctx.check(not bare, rule, f.construct('threshold'), what,
+              "the threshold is compared exactly with a floating point sum of relative frequencies: a sum that equals the threshold in exact "
+              "arithmetic can fall short of it by rounding, and what the statement includes is excluded", f.where())
+
+
+def rule_threshold(ctx):
+    for fq in ('mchap.assemble.classes.GenotypeMultiTrace.replicate_incongruence', 'mchap.calling.classes.GenotypeAllelesMultiTrace.replicate_incongruence'):
+        exact_threshold_on_sum(ctx, fq, 'R14.6/exact-threshold-on-sum', "the support probability is compared with the threshold with a tolerance or from counts")
+
+
 def rule_incongruence_ploidy(ctx):
     """flag 2 of replicate_incongruence means "the chains' mode supports together hold more alleles than the ploidy": the number it is
     compared with must be the ploidy of the trace.  The assemble version takes `len(alleles[0])`, the number of *distinct* haplotypes
@@ -156,6 +189,7 @@ def rule_incongruence_ploidy(ctx):
 
 
 def run(ctx):
+    rule_threshold(ctx)
     rule_incongruence_ploidy(ctx)
     rule_burn(ctx)
     rule_posterior(ctx)
